@@ -47,6 +47,44 @@ TITLES = [
 ]
 
 
+# fix commits in /repo: subject prefix -> (property, what failed: the witness the checks reported before the fix)
+FIXED = [
+    ("fix: table scan merges row-sets by primary key", "C12", "disk, pk table, history [I1,I2]: `select k, v from t order by k` returned the row-sets concatenated (2,4,6,1,5,9); also C07 ordered scan, C05, C01"),
+    ("fix: TopN does not preallocate", "C12", "`select k, v from t order by k offset 1`: TopN panicked with capacity overflow, statement returned Ok with zero rows (10 530 enumerated cases)"),
+    ("fix: SUM skips NULL inputs", "C02", "`select a, sum(b) from t1 group by a` over (2,NULL),(2,2): NULL reset the running sum; result depended on row-set order (flaky cases)"),
+    ("fix: COUNT(DISTINCT x) does not count NULL", "C02", "`select count(distinct b) from t1` over (1,1),(2,NULL),(NULL,3),(2,2) returned 4, SQL says 3"),
+    ("fix: hash join, hash semi/anti join never match NULL keys", "C02", "`select .. from t1 join t2 on t1.a = t2.a` returned the NULL/NULL pair; EXISTS kept rows with NULL keys (C01 optimizer off/on disagreed)"),
+    ("fix: merge join never matches NULL keys", "C01", "ordered-subquery join with NULL keys on both sides returned NULL/NULL pairs under the optimizer (merge join) but not without"),
+    ("fix: compactor pins its snapshot per table", "C09", "workload del-u, schedule [compactor.pass, compactor.pinned, A/delete u committed, compactor.table(u)...]: acknowledged delete undone (5 270 of 9 060 schedules)"),
+    ("fix: DELETE fails instead of writing delete vectors", "C09", "workload del-u, schedule [compactor pass commits u, then A/txn.locked(u) with a snapshot pinned before the pass]: acknowledged delete had no effect"),
+    ("fix: DROP TABLE takes the table lock", "C08", "workload R+drop, schedule [compactor.read_done(t), W/drop_table.applied, W commit, compactor commit, vacuum]: 'vacuum stopped unexpectedly' NotFound panic"),
+    ("fix: executing a plan whose table was dropped", "C10", "workload drop-t|sel-t, schedule [B planned, A drop committed, B run.planned]: session panicked (Option::unwrap in executor::Builder::new)"),
+    ("fix: DROP TABLE of a table that a concurrent session", "C10", "workload drop-t|drop-t: second DROP panicked in executor/drop.rs"),
+    ("fix: recovery ignores row-sets and delete vectors of tables", "C10", "workload drop-t|ins-t, schedule [B pinned t, A drop committed, B commit]: both acknowledged, reopen panicked (tables.get(..).unwrap())"),
+    ("fix: CREATE TABLE / DROP TABLE are serialized", "C10", "workload create-y|create-y: both passed the binder, duplicate CreateTable in the manifest, reopen failed with Duplicated(table y) (480 schedules)"),
+    ("fix: a truncated record at the end of the manifest", "C04", "history [CT], crash at manifest.append.write + j for every 0 < j < len: Database::new_on_disk panicked with JsonDecode EOF"),
+    ("fix: a delete-vector file left behind by a crash", "C04", "history [CT,I1,D], crash at dv.write/dv.synced/manifest.append.write+0: post-recovery `delete from t where k = 1` failed with AlreadyExists (90 crash states)"),
+    ("fix: a panic inside an operator task fails the statement", "C15", "any operator panic (e.g. scan at item 1): Database::run returned Ok with the rows produced so far"),
+    ("fix: operator output channel is deactivated before", "C10", "free-running multi-thread runtime: chunks broadcast between spawn() and rx.deactivate() were lost (reported independently by six seeding agents; not reachable by the gate scheduler, fixed by inspection)"),
+    ("fix: semi and anti joins are not rewritten into merge joins", "C17", "disk, pk tables: `select id from a where id in (select id from b where w = 1)` panicked with 'invalid join type: Semi'"),
+    ("fix: block checksum is verified before the block enters the cache", "C18", "flip bit 0 of byte 0 of 0_3/0.col: first `select k, s, v from a` failed with Checksum error, the repeated read returned altered rows (480 + 584 cases)"),
+    ("fix: column index decoding does not trust", "C18", "0_3/0.idx footer length corrupted: process abort in Vec::with_capacity (44 cases) / silently truncated column (2 cases)"),
+    ("fix: INSERT enforces NOT NULL", "C16", "`insert into t values (null, 7)` into `x smallint not null`: accepted; memory stored NULL, disk stored 0 (74 cases; C05 rows-differ)"),
+    ("fix: nullable block iterator keeps the validity", "C06", "int16 nullable plain, block 32, 81-row pattern, script [next(1), next(7)]: a batch spanning a block boundary lost rows / reported wrong row ids (155 050 cases)"),
+]
+
+
+def fixed_lines():
+    import subprocess
+    log = subprocess.run(["git", "-C", "/repo", "log", "--format=%h %s"], capture_output=True, text=True).stdout.splitlines()
+    out = []
+    for prefix, prop, what in FIXED:
+        sha = next((l.split()[0] for l in log if l.split(" ", 1)[1].startswith(prefix)), None)
+        if sha:
+            out.append(f"fixed: property={prop} {sha} {what}")
+    return out
+
+
 def main():
     kpath = os.path.join(VERIF, "known_findings.json")
     kj = json.load(open(kpath))
@@ -68,6 +106,7 @@ def main():
         kj["findings"].append({"id": f"KF-{prop}-{sig}", "property": prop, "title": title, "where": where,
                                "signature": sig, "witness_case": first, "cases_file": rel})
     kj["findings"].sort(key=lambda f: f["id"])
+    kj["fixed"] = fixed_lines()
     json.dump(kj, open(kpath, "w"), indent=1)
     print(len(kj["findings"]), "findings")
 
